@@ -17,8 +17,22 @@ import (
 // Accessors for the C08 driver (no behaviour change).
 
 // VerifC08Remaining evaluates CacheEntry.remaining on an entry with the given fields.
-func VerifC08Remaining(stored time.Time, ttl time.Duration, cutUntil time.Time, now time.Time) time.Duration {
+func VerifC08Remaining(stored time.Time, ttl time.Duration, cutUntil time.Time, now time.Time, state ...string) time.Duration {
 	e := &CacheEntry{stored: stored, ttl: ttl, cutUntil: cutUntil}
+	// everything about an entry that is NOT a time: a claimed background refresh, a rate limit,
+	// an ECS scope, an original TTL for the prefetch threshold — none of it may move the deadline
+	for _, st := range state {
+		switch st {
+		case "claimed":
+			e.prefetch.Store(true)
+		case "scoped":
+			e.scope = netip.MustParsePrefix("198.51.100.0/24")
+		case "limited":
+			e.rateLimit = 5
+		case "orig":
+			e.origTTL = 86400
+		}
+	}
 	return e.remaining(now)
 }
 
